@@ -176,13 +176,13 @@ let hostname_split lines =
      | _ -> failwith "hostname script must start with HOSTNAME <hex> / NEW <obj> hostname")
   | _ -> failwith "short hostname script"
 let run_hostname args lines =
-  let ifs = ifaces_of_tok (match args with [a] -> a | _ -> "-") in
+  let ifs = ifaces_of_tok (match args with a :: _ -> a | _ -> "-") in
   let (local, rest) = hostname_split lines in
   match host_run fuel_actor local ifs (List.map (aop_of_line no_api) rest) with
   | g0 :: gs -> out_line "."; print_groups (g0 :: gs); out_line "."
   | [] -> ()
 let run_mon_hostname args lines =
-  let ifs = ifaces_of_tok (match args with [a] -> a | _ -> "-") in
+  let ifs = ifaces_of_tok (match args with a :: _ -> a | _ -> "-") in
   let tr = group_trace (fun s -> s) out_of_line lines in
   match tr with
   | (l1, _) :: (_, o0) :: rest ->
@@ -217,7 +217,7 @@ let provider_api ws l =
   | _ -> failwith ("provider operation: " ^ l)
 let is_poll = function OPoll _ -> true | _ -> false
 let run_provider args lines =
-  let ifs = ifaces_of_tok (match args with [a] -> a | _ -> "-") in
+  let ifs = ifaces_of_tok (match args with a :: _ -> a | _ -> "-") in
   let (local, rest) = hostname_split lines in
   let ops = List.map (aop_of_line provider_api) rest @ [AApi PDestroy] in
   match comp_run fuel_actor local ifs ops with
@@ -235,7 +235,8 @@ let run_mon_provider args lines =
     (match words l1 with
      | ["HOSTNAME"; _] ->
        let rest = List.filter (fun (s, _) -> s <> "END") rest in
-       print_verdict (mon_provider (List.map (fun (s, _) -> aop_of_line provider_api s) rest) (o0 :: List.map snd rest))
+       let focus = match args with _ :: f :: _ -> int_of_string f | _ -> 0 in
+       print_verdict (mon_provider (n_of_int focus) (List.map (fun (s, _) -> aop_of_line provider_api s) rest) (o0 :: List.map snd rest))
      | _ -> failwith "mon-provider: first operation must be HOSTNAME")
   | _ -> failwith "mon-provider: short trace"
 
